@@ -15,13 +15,13 @@
 -/
 namespace Emerge.Ref.ReaderTmpl
 
-def body_load : String := "{ n, err := io.ReadFull(i.src, i.buff[low:high]) if err == io.EOF || err == io.ErrUnexpectedEOF { i.buff[low+n] = eof return nil } return err }"
+def body_load : String := "{ n, err := io.ReadFull(i.src, i.buff[low:high]) if err == io.EOF || err == io.ErrUnexpectedEOF { i.buff[low+n] = eof i.end = low + n return nil } return err }"
 
 def body_loadFirst : String := "{ return i.load(0, len(i.buff)/2) }"
 
 def body_loadSecond : String := "{ return i.load(len(i.buff)/2, len(i.buff)) }"
 
-def body_next : String := "{ if i.err != nil { return 0, i.err } b := i.buff[i.forward] if b == eof { return 0, io.EOF } i.forward++ i.pending = append(i.pending, b) if i.retracted > 0 { i.retracted-- if i.forward == len(i.buff) { i.forward = 0 } } else if i.forward == len(i.buff)/2 { i.err = i.loadSecond() } else if i.forward == len(i.buff) { if i.err = i.loadFirst(); i.err == nil { i.forward = 0 } } return b, nil }"
+def body_next : String := "{ if i.err != nil { return 0, i.err } b := i.buff[i.forward] if b == eof && i.forward == i.end { return 0, io.EOF } i.forward++ i.pending = append(i.pending, b) if i.retracted > 0 { i.retracted-- if i.forward == len(i.buff) { i.forward = 0 } } else if i.forward == len(i.buff)/2 { i.err = i.loadSecond() } else if i.forward == len(i.buff) { if i.err = i.loadFirst(); i.err == nil { i.forward = 0 } } return b, nil }"
 
 def body_Next : String := "{ b0, err := i.next() if err != nil { return 0, err } x := first[b0] if x >= as { if x == xx { return 0, &InputError{ Description: \"invalid utf-8 character\", Pos: i.forwardPos(), } } if b0 == '\\n' { i.lastColumns.Push(i.nextColumn) i.nextColumn = 1 } else { i.nextColumn++ } i.runeSizes.Push(1) return rune(b0), nil } size := int(x & 0b0111) b1, err := i.next() if err != nil { return 0, err } accept := acceptRanges[x>>4] if b1 < accept.lo || accept.hi < b1 { return 0, &InputError{ Description: \"invalid utf-8 character\", Pos: i.forwardPos(), } } if size == 2 { i.runeSizes.Push(size) i.nextColumn++ return rune(b0&mask2)<<6 | rune(b1&maskx), nil } b2, err := i.next() if err != nil { return 0, err } if b2 < locb || hicb < b2 { return 0, &InputError{ Description: \"invalid utf-8 character\", Pos: i.forwardPos(), } } if size == 3 { i.runeSizes.Push(size) i.nextColumn++ return rune(b0&mask3)<<12 | rune(b1&maskx)<<6 | rune(b2&maskx), nil } b3, err := i.next() if err != nil { return 0, err } if b3 < locb || hicb < b3 { return 0, &InputError{ Description: \"invalid utf-8 character\", Pos: i.forwardPos(), } } i.runeSizes.Push(size) i.nextColumn++ return rune(b0&mask4)<<18 | rune(b1&maskx)<<12 | rune(b2&maskx)<<6 | rune(b3&maskx), nil }"
 
